@@ -92,6 +92,7 @@ int main(int argc, char **argv)
 		if (!strncmp(args[0], "w.", 2) || !strncmp(args[0], "r.", 2) || !strcmp(args[0], "blob") || !strcmp(args[0], "open.probe") || !strcmp(args[0], "excl.probe") || !strcmp(args[0], "reset") || !strcmp(args[0], "cfg"))
 			r = ops_table(args, na);
 		if (r < 0) r = ops_codec(args, na);
+		if (r < 0 && !strncmp(args[0], "m.", 2)) r = ops_merger(args, na);
 		if (r < 0) puts("bad-op");
 		fflush(stdout);
 	}
